@@ -497,6 +497,8 @@ def run(ctx, tier):
     results += c05.reader_writer_tables(ctx, rule='C01.reader-writer-tables')
     results += c05.page_kinds(ctx, rule='C01.page-kinds')
     results += c05.run_length(ctx, rule='C01.run-length')
+    results += c05.no_narrowing(ctx, rule='C01.no-narrowing')
+    results += c05.freelist_order(ctx, rule='C01.freelist-order')
     results += c05.children_follow_data(ctx, rule='C01.children-follow-data')
     results += c05.parent_links_refreshed(ctx, rule='C01.parent-links-refreshed')
     results += c05.separator_refreshed(ctx, rule='C01.separator-refreshed')
